@@ -23,6 +23,7 @@ type Options struct {
 	TimeoutMs  int
 	NoReindex  bool
 	NoVacuity  bool
+	NoGroup    bool
 	Setup      func(x *vexec.Exec, w *World)
 	Solver     string
 }
@@ -78,6 +79,8 @@ type InstResult struct {
 	Stubs       map[string]int
 	Unwinds     []string
 	NVars       int
+	TermsBy     map[string]int
+	OpHist      map[string]int
 	Queries     int
 }
 
@@ -160,6 +163,8 @@ func (w *World) RunInstance(inst Instance, s *sym.Pool) (res *InstResult) {
 	res.Funcs = x.FuncsSeen
 	res.Stubs = x.StubCalls
 	res.NVars = len(c.Vars)
+	res.TermsBy = x.TermsBy
+	res.OpHist = c.OpHist()
 	if res.Err != nil {
 		return
 	}
@@ -227,32 +232,67 @@ func (w *World) discharge(inst Instance, x *vexec.Exec, pl *sym.Pool, res *InstR
 		return r, m, msg, float64(time.Since(t).Microseconds()) / 1000
 	}
 
-	// assertions
-	for _, a := range H.Asserts {
-		ob := ObResult{Label: a.Label, Kind: "assert", Pos: a.Pos}
+	// assertions: grouped by the assumptions/panics in force; one query per group decides OR(bad_i);
+	// only if that is satisfiable are the members decided one by one
+	type grp struct{ na, np int }
+	groups := map[grp][]int{}
+	var order []grp
+	results := make([]ObResult, len(H.Asserts))
+	for i, a := range H.Asserts {
+		results[i] = ObResult{Label: a.Label, Kind: "assert", Pos: a.Pos}
 		if a.Bad.IsConst() && a.Bad.C == 0 {
-			ob.Verdict, ob.Trivial = "unsat", true
-			res.Obs = append(res.Obs, ob)
+			results[i].Verdict, results[i].Trivial = "unsat", true
 			continue
 		}
-		as := base(a.NAssume)
-		if panicMode != "ignore" {
-			np := noPanicUpTo[a.NPanic]
-			if !(np.IsConst() && np.C == 1) {
-				as = append(as, np)
-			}
+		k := grp{a.NAssume, a.NPanic}
+		if _, ok := groups[k]; !ok {
+			order = append(order, k)
 		}
-		as = append(as, a.Bad)
-		r, m, msg, ms := solve(as)
-		ob.Ms, ob.Verdict, ob.Detail = ms, r.String(), msg
-		if r == sym.Sat {
-			ob.Model = m
-			if len(c.Apps) == 0 && sym.Eval(a.Bad, m, map[*sym.Term]uint64{}) != 1 {
-				ob.Detail += " [model does not satisfy the term evaluator]"
-			}
-		}
-		res.Obs = append(res.Obs, ob)
+		groups[k] = append(groups[k], i)
 	}
+	for _, k := range order {
+		idx := groups[k]
+		pre := base(k.na)
+		if panicMode != "ignore" {
+			np := noPanicUpTo[k.np]
+			if !(np.IsConst() && np.C == 1) {
+				pre = append(pre, np)
+			}
+		}
+		decideOne := func(i int) {
+			a := H.Asserts[i]
+			r, m, msg, ms := solve(append(append([]*sym.Term(nil), pre...), a.Bad))
+			ob := &results[i]
+			ob.Ms, ob.Verdict, ob.Detail = ms, r.String(), msg
+			if r == sym.Sat {
+				ob.Model = m
+				if len(c.Apps) == 0 && sym.Eval(a.Bad, m, map[*sym.Term]uint64{}) != 1 {
+					ob.Detail += " [model does not satisfy the term evaluator]"
+				}
+			}
+		}
+		if len(idx) == 1 || inst.Opt.NoGroup {
+			for _, i := range idx {
+				decideOne(i)
+			}
+			continue
+		}
+		var bads []*sym.Term
+		for _, i := range idx {
+			bads = append(bads, H.Asserts[i].Bad)
+		}
+		r, _, msg, ms := solve(append(append([]*sym.Term(nil), pre...), c.Or(bads...)))
+		if r == sym.Unsat {
+			for _, i := range idx {
+				results[i].Verdict, results[i].Ms, results[i].Detail = "unsat", ms/float64(len(idx)), "decided jointly with "+fmt.Sprint(len(idx)-1)+" other assertions "+msg
+			}
+			continue
+		}
+		for _, i := range idx {
+			decideOne(i)
+		}
+	}
+	res.Obs = append(res.Obs, results...)
 	// vacuity: every assertion's guard and every cover point must be reachable under the assumptions
 	if !inst.Opt.NoVacuity {
 		type cv struct {
@@ -263,6 +303,9 @@ func (w *World) discharge(inst Instance, x *vexec.Exec, pl *sym.Pool, res *InstR
 		var cvs []cv
 		seen := map[string]bool{}
 		for _, a := range H.Asserts {
+			if len(H.Covers) > 0 {
+				break // the harness has explicit cover points after its assertions
+			}
 			key := fmt.Sprintf("%d/%d", a.G.ID, a.NAssume)
 			if seen[key] {
 				continue
